@@ -230,6 +230,8 @@ class Gen:
         if self.device_fn:
             names_ += ["BUTTON", "JOYSTK", "POINT"]
         f = self.choice(names_)
+        if f == "JOYSTK" and self.on("no_joystk"):
+            f = "BUTTON"
         if depth > 0:
             self.nested_fn = True
         if f == "FIX" and self.on("no_fix"):
